@@ -6,7 +6,8 @@
   * `oracle` -- what the next calls of `waitpid` return: `some status` = the pid (the child was reaped, `status` stored),
                `none` = -1 (EINTR, ECHILD, ...); an exhausted oracle answers -1.
   `waitpid(pid, &status, 0) != (pid_t)pid` is translated as ONE condition (assumption: waitpid returns the pid it was
-  asked for or -1).  `WEXITSTATUS(status)` = bits 8..15.  `errno` is a field.  Core Lean only.
+  asked for or -1).  `WEXITSTATUS(status)` = bits 8..15.  `errno` is a field.  `_exit(status)` appends to the trace and ends the function.
+  `unsetenv` / `setenv(.., 1)` act on an association list (the model's `PEnv`) and refuse invalid names (POSIX).  Core Lean only.
 -/
 import Nstd.Args.CSem
 
@@ -16,6 +17,7 @@ inductive Sys where
   | close (fd : Int)
   | kill (pid sig : Nat)
   | waitpid (pid : Nat) (ok : Bool)
+  | exit (status : Int)
   deriving DecidableEq, Repr
 
 structure K where
@@ -31,6 +33,18 @@ def K.waitpid (k : K) (pid : Nat) : Option Nat × K :=
   match k.oracle with
   | [] => (none, { k with trace := k.trace ++ [.waitpid pid false] })
   | r :: rest => (r, { trace := k.trace ++ [.waitpid pid r.isSome], oracle := rest })
+
+/-- `_exit(status)`: the process ends (what follows in the function is never executed) -/
+def K.exit (k : K) (status : Int) : K := { k with trace := k.trace ++ [.exit status] }
+
+/-- `(int)x` for a `uint32` value -/
+def toInt32 (x : Nat) : Int := if x % 4294967296 < 2147483648 then (x % 4294967296 : Nat) else (x % 4294967296 : Nat) - 4294967296
+
+/-- `unsetenv(name) == 0` on the environment `e`: POSIX rejects an empty name and a name containing `=` -/
+def envUnset (e : PEnv) (k : Str) : Bool × PEnv := if validName k then (true, envRemove k e) else (false, e)
+
+/-- `setenv(name, value, 1) == 0` -/
+def envSet (e : PEnv) (k v : Str) : Bool × PEnv := if validName k then (true, (k, v) :: envRemove k e) else (false, e)
 
 def wexitstatus (st : Int) : Nat := (st / 256 % 256).toNat
 
